@@ -275,14 +275,18 @@ func TestHedgedRetryTimeout(t *testing.T) {
 		sc := scen{LimitUs: rapid.SampledFrom([]int{1000, 3000}).Draw(t, "limitUs"), Async: rapid.Bool().Draw(t, "async"), Between: rapid.Bool().Draw(t, "between")}
 		limit := time.Duration(sc.LimitUs) * time.Microsecond
 		hp := hedgepolicy.BuilderWithDelay[int](100 * time.Microsecond).WithMaxHedges(1).CancelIf(func(_ int, err error) bool { return err == nil }).Build()
-		rp := retrypolicy.Builder[int]().WithMaxRetries(3).Build()
+		// (the two branches share the retry policy's budget for this execution: it is generous, and the case is only judged
+		// if it was not used up, which a machine stall on the hedged branch could otherwise cause)
+		const budget = 300
+		rp := retrypolicy.Builder[int]().WithMaxRetries(budget).Build()
 		pols := []failsafe.Policy[int]{hp, rp}
 		if sc.Between {
 			pols = append(pols, fallback.BuilderWithResult[int](-1).HandleErrors(errors.New("never")).Build())
 		}
 		pols = append(pols, timeout.With[int](limit))
 		var mu sync.Mutex
-		tries := map[bool]int{} // by branch (IsHedge)
+		tries := map[bool]int{}    // by branch (IsHedge)
+		usedWhenHedgeTimedOut := 0 // attempts started (by both branches) when the hedged branch's first try was ended
 		fn := func(e failsafe.Execution[int]) (int, error) {
 			mu.Lock()
 			tries[e.IsHedge()]++
@@ -294,6 +298,11 @@ func TestHedgedRetryTimeout(t *testing.T) {
 			select {
 			case <-e.Canceled():
 			case <-harness.After(30 * time.Second):
+			}
+			if e.IsHedge() && n == 1 {
+				mu.Lock()
+				usedWhenHedgeTimedOut = tries[true] + tries[false]
+				mu.Unlock()
 			}
 			return 0, errIn
 		}
@@ -307,10 +316,12 @@ func TestHedgedRetryTimeout(t *testing.T) {
 		}
 		mu.Lock()
 		hedgeTries, primaryTries := tries[true], tries[false]
+		used := usedWhenHedgeTimedOut
 		mu.Unlock()
 		// (if the hedge never started because the machine stalled past the first limit, the primary alone retries until its
 		// budget ends: nothing to judge)
-		if hedgeTries >= 1 {
+		judged := hedgeTries >= 1 && used > 0 && used <= budget-2 // retries remained when the hedged branch's first try timed out
+		if judged {
 			if hedgeTries < 2 {
 				harness.Violation(t, prop, test, "no-retry-after-timeout", sc, "%+v: the hedged branch's first try was ended by the Timeout and retries remained, yet it made %d tries (primary %d); returned (%d,%v)", sc, hedgeTries, primaryTries, v, err)
 			}
@@ -319,7 +330,7 @@ func TestHedgedRetryTimeout(t *testing.T) {
 			}
 		}
 		b, _ := json.Marshal(sc)
-		st.Case(string(b), hedgeTries >= 1, fmt.Sprintf("hedge-started=%v", hedgeTries >= 1))
+		st.Case(string(b), judged, fmt.Sprintf("judged=%v", judged))
 		st.Sample(string(b), func() any { return sc })
 	})
 }
